@@ -3,6 +3,8 @@
 #include <H5Cpp.h>
 #include <cstdio>
 #include <cstring>
+#include <cstdlib>
+#include <cmath>
 #include <vector>
 static std::vector<float> last(const char* fn, size_t& cells) {
     H5::H5File f(fn, H5F_ACC_RDONLY); H5::DataSet ds = f.openDataSet("/PhaseSpace/data"); H5::DataSpace sp = ds.getSpace();
@@ -12,9 +14,16 @@ static std::vector<float> last(const char* fn, size_t& cells) {
     return std::vector<float>(v.end() - cells, v.end());
 }
 int main(int argc, char** argv) {
-    if (argc != 3) return 3;
+    if (argc != 3 && argc != 4) return 3;
     size_t ca, cb; auto a = last(argv[1], ca), b = last(argv[2], cb);
     if (ca != cb) { printf("MISMATCH record sizes %zu vs %zu\n", ca, cb); return 1; }
+    if (argc == 4) {   // C11: equal within rounding — tolerance relative to the peak density
+        double tol = atof(argv[3]), peak = 0, worst = 0;
+        for (size_t i = 0; i < ca; i++) { if (std::fabs(a[i]) > peak) peak = std::fabs(a[i]); }
+        for (size_t i = 0; i < ca; i++) { double d = std::fabs((double)a[i] - (double)b[i]); if (!(d <= worst)) worst = d; }
+        printf("final phase space: max abs difference %.3g, peak %.3g, relative %.3g (tolerance %.3g)\n", worst, peak, peak > 0 ? worst / peak : 0, tol);
+        return (peak > 0 && worst <= tol * peak) ? 0 : 1;
+    }
     size_t diff = 0; for (size_t i = 0; i < ca; i++) if (std::memcmp(&a[i], &b[i], 4)) diff++;
     printf("final phase space: %zu of %zu cells differ\n", diff, ca);
     return diff ? 1 : 0;
